@@ -488,3 +488,85 @@ def pmap(fn, items, procs=None, chunksize=None):
     ctx = mp.get_context("fork")
     with ctx.Pool(procs) as pool:
         return pool.map(fn, items, chunksize or max(1, len(items) // (procs * 8)))
+
+
+HARD_TIMEOUT = "__hard_timeout__"
+
+
+def pmap_hard(fn, items, per_item_timeout=20.0, procs=None):
+    """order-preserving parallel map with a HARD per-item limit: a worker that exceeds it is killed (SIGKILL) and the
+    item's result is the sentinel HARD_TIMEOUT. Needed where the real code can spin inside C (regex backtracking),
+    which the SIGALRM-based per-case guard cannot interrupt."""
+    import multiprocessing as mp
+    import queue as _q
+
+    items = list(items)
+    procs = procs or min(16, os.cpu_count() or 4)
+    ctx = mp.get_context("fork")
+    task_q, res_q = ctx.Queue(), ctx.Queue()
+    for i in range(len(items)):
+        task_q.put(i)
+    results = [None] * len(items)
+
+    def worker(wid):
+        while True:
+            try:
+                i = task_q.get(timeout=0.5)
+            except _q.Empty:
+                return
+            res_q.put(("start", wid, i, None))
+            try:
+                r = fn(items[i])
+            except BaseException as ex:  # noqa
+                r = ("__worker_exception__", type(ex).__name__, str(ex)[:200])
+            res_q.put(("done", wid, i, r))
+
+    workers, running = {}, {}
+    next_wid = [0]
+
+    def spawn():
+        wid = next_wid[0]
+        next_wid[0] += 1
+        p = ctx.Process(target=worker, args=(wid,), daemon=True)
+        p.start()
+        workers[wid] = p
+
+    for _ in range(min(procs, max(1, len(items)))):
+        spawn()
+    done = 0
+    while done < len(items):
+        try:
+            kind, wid, i, r = res_q.get(timeout=0.5)
+            if kind == "start":
+                running[wid] = (i, time.time())
+            else:
+                running.pop(wid, None)
+                if results[i] is None:
+                    results[i] = r
+                    done += 1
+        except _q.Empty:
+            pass
+        now = time.time()
+        for wid, (i, t0) in list(running.items()):
+            if now - t0 > per_item_timeout:
+                workers[wid].kill()
+                workers[wid].join()
+                running.pop(wid)
+                if results[i] is None:
+                    results[i] = HARD_TIMEOUT
+                    done += 1
+                spawn()
+        # a worker may have died without reporting (e.g. segfault): respawn while tasks remain
+        alive = [w for w in workers.values() if w.is_alive()]
+        if not alive and done < len(items):
+            if task_q.empty() and not running:
+                for k in range(len(items)):
+                    if results[k] is None:
+                        results[k] = HARD_TIMEOUT
+                        done += 1
+            else:
+                spawn()
+    for p in workers.values():
+        if p.is_alive():
+            p.kill()
+    return results
